@@ -4,54 +4,11 @@
   `Deserializer(cls).deserialize` (Sem/Deser.deserialize = per-field pass + constructor), for every
   flag setting.  Built on `exact_scalar` (Lemmas/SchemaExact.lean) per member.
 -/
-import TypedpyModel.Lemmas.SchemaExact
+import TypedpyModel.Lemmas.SchemaExactField
 namespace Typedpy.Sch
 open Typedpy
 
-/-! ### class level of exactness: flat classes over the exact scalar fragment -/
-
-/-- no exact scalar schema admits `null` -/
-theorem c08_exact_not_null (R S) (f : FieldDecl) (hf : exactScalar f = true) :
-    jsV R S (emit true f) .none = false := by
-  cases hv : jsV R S (emit true f) .none with
-  | false => rfl
-  | true =>
-    exfalso
-    cases f with
-    | integer o =>
-      simp only [emit] at hv
-      have := (jsV_numKws_inv R S "integer" true o .none hv).1
-      simp [typeIs] at this
-    | number o =>
-      simp only [emit] at hv
-      have := (jsV_numKws_inv R S "number" false o .none hv).1
-      simp [typeIs] at this
-    | float o =>
-      simp only [emit] at hv
-      have := (jsV_numKws_inv R S "number" false o .none hv).1
-      simp [typeIs] at this
-    | string lo hi pat =>
-      simp only [emit] at hv
-      obtain ⟨s, hs, _⟩ := jsV_strKws_inv R S lo hi pat .none hv
-      cases hs
-    | boolean =>
-      simp only [emit] at hv
-      have hty : typeIs "boolean" .none = true := by
-        simpa [jsV, getKw, kw, keyIs, jsKws, kwOf, kwOfStr, kwNode, kwLeaf, typeOk] using hv
-      simp [typeIs] at hty
-    | enumLit vs =>
-      simp only [exactScalar, and_true_iff'] at hf
-      simp only [emit] at hv
-      rw [jsV_enum] at hv
-      have hm := jsonMem_pyMem .none vs hf.2 hv
-      rw [pyMem_none_false vs hf.2] at hm
-      simp at hm
-    | enumCls cls names =>
-      simp only [emit] at hv
-      rw [jsV_enum] at hv
-      obtain ⟨n, hn, _⟩ := jsonMem_str_inv .none names hv
-      cases hn
-    | _ => simp [exactScalar] at hf
+/-! ### class level of exactness: flat classes over the exact field fragment (scalars, Array[X], Tuple[X] at any depth) -/
 
 /-- the keyword arguments read off a JSON object are the object's members -/
 theorem c08_lookup_kwOfDict (n : String) : ∀ (kvs : List (PyVal × PyVal)) (kw : List (String × PyVal)),
@@ -192,9 +149,9 @@ theorem c08_deserFields_ok (O : Oracles) (R S)
       have hjs := hadm name f (by simp) v hl
       have hnn : v.isNone = false := by
         cases v <;> simp [PyVal.isNone]
-        rw [c08_exact_not_null R S f hex.1] at hjs
+        rw [c08_exactF_not_null R S f hex.1] at hjs
         simp at hjs
-      obtain ⟨y, y', hd, hv⟩ := exact_scalar O R S hS opts c.ignoreNone f v hex.1 hjs
+      obtain ⟨y, y', hd, hv⟩ := c08_exact_field O R S hS opts f c.ignoreNone v hex.1 hjs
       refine ⟨(name, y) :: args, by simp [deserFields, hl, hnn, hd, h1], ?_, ?_, ?_⟩
       · intro n z hz
         by_cases hn : n = name
@@ -267,7 +224,7 @@ theorem c08_emitP_mem_of (fx : Bool) (n : String) (f : FieldDecl) : ∀ fields :
     · cases heq; simp
     · simp [c08_emitP_mem_of fx n f rest h']
 
-/-- **class level of exactness** (flat classes over the exact scalar fragment, no defaults, not a field
+/-- **class level of exactness** (flat classes over the exact field fragment (scalars, Array[X], Tuple[X] at any depth), no defaults, not a field
     wrapper): every JSON object the class's schema admits is accepted by the Deserializer — the
     per-field pass succeeds on every member and the constructor accepts the resulting arguments
     (required present, no undeclared key unless allowed, every field validates) -/
